@@ -19,7 +19,8 @@ SIG_D9B = "reference-followed-by-dollar"
 TEXT = list("abcXYZ019") + [" ", " ", ",", ";", ":", "-", "_", "=", "(", ")", "!", "?", "/", "|", "+", "%", "&", "<", ">", "'", "#", "@", "*", "^", "{", "}", ".", "~"]
 TERMINATORS = [" ", ",", ";", ":", "-", "(", ")", "!", "?", "/", "|", "+", "%", "&", "<", ">", "#", "@", "^", "{", "}"]
 REFS = [("headers", "a", None), ("headers", "b", None), ("headers", "2", None), ("headers", "0", None), ("headers", "zz", None), ("variables", "x", None), ("variables", "n", None),
-        ("variables", "t", "k"), ("variables", "st", "0"), ("variables", "st", "length"), ("variables", "nope", None), ("metadata", "note", None), ("metadata", "id", None),
+        ("variables", "t", "k"), ("variables", "st", "0"), ("variables", "st", "length"), ("variables", "nope", None),
+        ("variables", "emp", "length"), ("variables", "emp", "0"), ("variables", "st", "7"), ("variables", "x", "k"),      # an empty stack, an index past the end, a key on a scalar ("metadata", "note", None), ("metadata", "id", None),
         ("csvpath", "line_number", None), ("csvpath", "count_lines", None), ("csvpath", "count_scans", None), ("csvpath", "count_matches", None), ("csvpath", "identity", None)]
 TYPES = {"variables": "TVariables", "headers": "THeaders", "metadata": "TMetadata", "csvpath": "TCsvpath"}
 CELLS = ["1", "22", "x y", " padded ", "", "Zed", "a,b", "7"]
@@ -88,6 +89,7 @@ def env_lit(rows, k, stack, ident):
     var.append(("n", ("s", str(k))))                      # count_scans(): scan [1*] -> the k-th scan
     var.append(("st", ("l", [pystr(v) for v in stack])))
     var.append(("t", ("d", [("k", pystr(cell(3)))])))
+    var.append(("emp", ("l", [])))                        # pushed and popped on every line: the stack exists and is empty
 
     def vv(x):
         kind, val = x
@@ -111,7 +113,7 @@ def impl(job):
     template = "".join(c[1] if c[0] == "text" else ref_text(c[1]) for c in chunks)
     out = {"exc": None, "template": template}
     try:
-        text = f'~id: p1 note: hello there :~ ${fname}[1*][ @x = #a @n = count_scans() push("st", #b) @t.k = #c print{qual}("{template}") ]'
+        text = f'~id: p1 note: hello there :~ ${fname}[1*][ @x = #a @n = count_scans() push("st", #b) push("emp", #a) @pp = pop("emp") @t.k = #c print{qual}("{template}") ]'
         out["text"] = text
         with Quiet():
             p = CsvPath()
